@@ -461,6 +461,9 @@ func (x Expr) Get(data any) (results []any) {
 					}
 				}
 			} else {
+				// The marker is shared by the siblings of prev, the next one
+				// has to be expanded as well.
+				stack[len(stack)-1] = di &^ descentFlag
 				if int(fi) == len(x)-1 { // last one
 					if top {
 						results = append(results, prev)
@@ -1304,6 +1307,9 @@ func (x Expr) FirstFound(data any) (any, bool) {
 
 				}
 			} else {
+				// The marker is shared by the siblings of prev, the next one
+				// has to be expanded as well.
+				stack[len(stack)-1] = di &^ descentFlag
 				stack = append(stack, prev)
 			}
 		case Root:
